@@ -181,6 +181,11 @@ Consume ==
            IN IF c = "" THEN Good(nxt)
               ELSE IF e.res = r.res
                    THEN Soft(e, txt, {s.mode \o "." \o x : x \in FailSet(checks)}, nxt)
+              \* a play that had to be refused was accepted: go on with the
+              \* specification's (unchanged) state, so that the playable-set queries
+              \* that follow are still judged
+              ELSE IF r.res = "raises" /\ e.res = "ok"
+                   THEN Soft(e, txt, {s.mode \o ".accepted-refusable"}, nxt)
               ELSE Bad(e, txt)
         ELSE IF e.ev = "setdummy" THEN
            LET s1 == P!SetDummy(s, SetOf(e.hand))
